@@ -9,6 +9,11 @@
  *   call <fn> <path|-> <name|-> <ints csv|-> <strs hex;hex|-> [<dt>:<dims csv>:<data hex>]...
  *        one mid-level write call; <path> = <kind>:<index>/... gives the index arguments (B, Z, S ...) or, for
  *        node-context functions, the cg_goto position              -> "i <returned index>" | "i -" | "i fail <status>"
+ *   callp <axis>:<cuts csv|->:<order csv>:<lo csv>:<g|p> <fn> <path> <name> <ints> <strs> <arr>...
+ *        the SAME entity as `call`, produced another way: the array (coord / field / array / section connectivity) is
+ *        written in slabs along <axis> (cut positions, slab order, file-space lower index per dimension) through
+ *        cg_*_general_write with a memory sub-range (g) or cg_*_partial_write with a contiguous slab (p, last axis);
+ *        sections: cg_section_partial_write + cg_elements_partial_write per element range
  *   dump <file>                      low-level walk of the file through cgio, children in file order:
  *                                    "N <path of hex names> <label hex> <type> <dims> <data hex>", then "E dump <status>"
  *   read <file>                      cg_open (CG_MODE_READ) and EVERYTHING the API reports, one line per entity:
@@ -158,6 +163,42 @@ static int idx_of(const char *k)
 }
 
 /* ------------------------------------------------------------------------------------------------ write calls */
+static struct { int on, axis, ncut, nord, nlo, partial; long long cut[64], ord[64], lo[12]; } SL;
+
+static void parse_slab(const char *w)
+{
+    char *c = strdup(w), *f[5] = {0, 0, 0, 0, 0}; int nf = 0;
+    for (char *p = strtok(c, ":"); p && nf < 5; p = strtok(NULL, ":")) f[nf++] = p;
+    memset(&SL, 0, sizeof SL);
+    if (nf == 5) {
+        int n; long long *v;
+        SL.on = 1; SL.axis = atoi(f[0]);
+        v = csv(f[1], &n); SL.ncut = n < 63 ? n : 63; for (int i = 0; i < SL.ncut; i++) SL.cut[i] = v[i]; free(v);
+        v = csv(f[2], &n); SL.nord = n < 64 ? n : 64; for (int i = 0; i < SL.nord; i++) SL.ord[i] = v[i]; free(v);
+        v = csv(f[3], &n); SL.nlo = n < 12 ? n : 12; for (int i = 0; i < SL.nlo; i++) SL.lo[i] = v[i]; free(v);
+        SL.partial = f[4][0] == 'p';
+    }
+    free(c);
+}
+/* the k-th slab (in the requested order) of an array of the given dims: file range, memory range, contiguous offset */
+static int slab(int k, int nd, const cgsize_t *dims, cgsize_t *srmin, cgsize_t *srmax, cgsize_t *mrmin, cgsize_t *mrmax, size_t *off_elems)
+{
+    if (k >= SL.nord) return 0;
+    int s = (int)SL.ord[k];
+    long long a = s == 0 ? 0 : SL.cut[s - 1], b = s == SL.ncut ? (long long)dims[SL.axis] : SL.cut[s];
+    size_t below = 1;
+    for (int d = 0; d < nd; d++) {
+        long long lo = d < SL.nlo ? SL.lo[d] : 1;
+        srmin[d] = (cgsize_t)lo; srmax[d] = (cgsize_t)(lo + dims[d] - 1); mrmin[d] = 1; mrmax[d] = dims[d];
+        if (d < SL.axis) below *= (size_t)dims[d];
+    }
+    srmin[SL.axis] = (cgsize_t)((SL.axis < SL.nlo ? SL.lo[SL.axis] : 1) + a);
+    srmax[SL.axis] = (cgsize_t)((SL.axis < SL.nlo ? SL.lo[SL.axis] : 1) + b - 1);
+    mrmin[SL.axis] = (cgsize_t)(a + 1); mrmax[SL.axis] = (cgsize_t)b;
+    *off_elems = below * (size_t)a;
+    return 1;
+}
+
 static int do_call(void)
 {
     const char *f = W[1];
@@ -181,7 +222,21 @@ static int do_call(void)
     if (!strcmp(f, "base")) rc = cg_base_write(fn, name, is[0], is[1], &out);
     else if (!strcmp(f, "zone")) rc = cg_zone_write(fn, B, name, cs + 1, (CGNS_ENUMT(ZoneType_t))is[0], &out);
     else if (!strcmp(f, "grid")) rc = cg_grid_write(fn, B, Z, name, &out);
+    else if (!strcmp(f, "coord") && SL.on) {
+        cgsize_t a1[12], a2[12], m1[12], m2[12]; size_t off;
+        rc = 0;
+        for (int k = 0; !rc && slab(k, A[0].nd, A[0].dims, a1, a2, m1, m2, &off); k++)
+            rc = SL.partial ? cg_coord_partial_write(fn, B, Z, dtype_of(A[0].dt), name, a1, a2, A[0].data + off * dt_bytes(dtype_of(A[0].dt)), &out)
+                            : cg_coord_general_write(fn, B, Z, name, dtype_of(A[0].dt), a1, a2, dtype_of(A[0].dt), A[0].nd, A[0].dims, m1, m2, A[0].data, &out);
+    }
     else if (!strcmp(f, "coord")) rc = cg_coord_write(fn, B, Z, dtype_of(A[0].dt), name, A[0].data, &out);
+    else if (!strcmp(f, "section") && SL.on) {
+        int npe = 0; cgsize_t one = cs[2] - cs[1] + 1, a1[2], a2[2], m1[2], m2[2]; size_t off;
+        cg_npe((CGNS_ENUMT(ElementType_t))is[0], &npe);
+        rc = cg_section_partial_write(fn, B, Z, name, (CGNS_ENUMT(ElementType_t))is[0], cs[1], cs[2], is[3], &out);
+        for (int k = 0; !rc && slab(k, 1, &one, a1, a2, m1, m2, &off); k++)
+            rc = cg_elements_partial_write(fn, B, Z, out, cs[1] + m1[0] - 1, cs[1] + m2[0] - 1, (cgsize_t *)A[0].data + (size_t)(m1[0] - 1) * npe);
+    }
     else if (!strcmp(f, "section"))
         rc = cg_section_write(fn, B, Z, name, (CGNS_ENUMT(ElementType_t))is[0], cs[1], cs[2], is[3], (cgsize_t *)A[0].data, &out);
     else if (!strcmp(f, "poly_section"))
@@ -193,6 +248,13 @@ static int do_call(void)
         rc = cg_parent_data_write(fn, B, Z, E, (cgsize_t *)pd); has_index = 0; free(pd);
     }
     else if (!strcmp(f, "sol")) rc = cg_sol_write(fn, B, Z, name, (CGNS_ENUMT(GridLocation_t))is[0], &out);
+    else if (!strcmp(f, "field") && SL.on) {
+        cgsize_t a1[12], a2[12], m1[12], m2[12]; size_t off;
+        rc = 0;
+        for (int k = 0; !rc && slab(k, A[0].nd, A[0].dims, a1, a2, m1, m2, &off); k++)
+            rc = SL.partial ? cg_field_partial_write(fn, B, Z, S, dtype_of(A[0].dt), name, a1, a2, A[0].data + off * dt_bytes(dtype_of(A[0].dt)), &out)
+                            : cg_field_general_write(fn, B, Z, S, name, dtype_of(A[0].dt), a1, a2, dtype_of(A[0].dt), A[0].nd, A[0].dims, m1, m2, A[0].data, &out);
+    }
     else if (!strcmp(f, "field")) rc = cg_field_write(fn, B, Z, S, dtype_of(A[0].dt), name, A[0].data, &out);
     else if (!strcmp(f, "boco"))
         rc = cg_boco_write(fn, B, Z, name, (CGNS_ENUMT(BCType_t))is[0], (CGNS_ENUMT(PointSetType_t))is[1], cs[2], cs + 3, &out);
@@ -256,6 +318,13 @@ static int do_call(void)
         else if (!strcmp(f, "conversion")) rc = cg_conversion_write(dtype_of(A[0].dt), A[0].data);
         else if (!strcmp(f, "ordinal")) rc = cg_ordinal_write(is[0]);
         else if (!strcmp(f, "user_data")) rc = cg_user_data_write(name);
+        else if (!strcmp(f, "array") && SL.on) {
+            cgsize_t a1[12], a2[12], m1[12], m2[12]; size_t off;
+            for (int k = 0; !rc && slab(k, A[0].nd, A[0].dims, a1, a2, m1, m2, &off); k++) {
+                if (k && (rc = go_path())) break;
+                rc = cg_array_general_write(name, dtype_of(A[0].dt), A[0].nd, A[0].dims, a1, a2, dtype_of(A[0].dt), A[0].nd, A[0].dims, m1, m2, A[0].data);
+            }
+        }
         else if (!strcmp(f, "array")) rc = cg_array_write(name, dtype_of(A[0].dt), A[0].nd, A[0].dims, A[0].data);
         else if (!strcmp(f, "rind")) rc = cg_rind_write(is);
         else if (!strcmp(f, "gridlocation")) rc = cg_gridlocation_write((CGNS_ENUMT(GridLocation_t))is[0]);
@@ -1010,7 +1079,8 @@ int main(void)
             ERR(rc, "open"); printf("c %d\n", rc);
         }
         else if (!strcmp(c, "close")) { rc = cg_close(fn); ERR(rc, "close"); printf("c %d\n", rc); }
-        else if (!strcmp(c, "call") && NW >= 6) do_call();
+        else if (!strcmp(c, "call") && NW >= 6) { SL.on = 0; do_call(); }
+        else if (!strcmp(c, "callp") && NW >= 7) { parse_slab(W[1]); for (int i = 1; i + 1 < NW; i++) W[i] = W[i + 1]; NW--; do_call(); SL.on = 0; }
         else if (!strcmp(c, "dump")) do_dump(W[1]);
         else if (!strcmp(c, "read")) do_read(W[1]);
         else printf("badline %s\n", c);
